@@ -139,6 +139,8 @@ pub fn finish_sweep(prop: &mut dyn Prop, tier: Tier, rr: &RunResult) -> i32 {
         "violations_detail": viol_json,
         "known_findings_matched": known,
         "worker_crashes": rr.crashes,
+        "build_profile": std::env::var("VERIF_PROFILE").unwrap_or_else(|_| "checked (optimised, overflow checks and debug assertions on)".into()),
+        "same_sweep_passed_in_wrapping_profile": std::env::var("VERIF_WRAPPING_PASSED").is_ok(),
     });
     if let (Some(c), Some(x)) = (coverage.as_object_mut(), prop.coverage_extra().as_object()) {
         for (k, v) in x {
